@@ -302,13 +302,17 @@ pub fn build_matrices(spec: &ProblemSpec) -> Vec<api::Matrix> {
                     let (a, b) = (spec.coords[i], spec.coords[j]);
                     let manhattan = (a.0 as i64 - b.0 as i64).abs() + (a.1 as i64 - b.1 as i64).abs();
                     let asym = spec.asym[i * n + j] as i64;
-                    let mut d = manhattan * 2 + if spec.non_metric { asym * 7 } else { asym.min(2) } + 1;
+                    // metric class: asymmetry comes from node potentials (d + pi(j) - pi(i) keeps the triangle inequality
+                    // exactly, also on collinear points); non-metric class: free per-pair offsets
+                    let (pi_i, pi_j) = ((spec.asym[i * n + i] % 3) as i64, (spec.asym[j * n + j] % 3) as i64);
+                    let (rho_i, rho_j) = ((spec.asym[i * n + i] / 3 % 2) as i64, (spec.asym[j * n + j] / 3 % 2) as i64);
+                    let mut d = if spec.non_metric { manhattan * 2 + asym * 7 + 1 } else { manhattan * 2 + 3 + pi_j - pi_i };
                     if p == 1 {
                         d += 3;
                     }
                     distances[i * n + j] = d;
                     // duration: even numbers, differs from distance
-                    times[i * n + j] = 2 * (d + (asym % 3) + p as i64);
+                    times[i * n + j] = if spec.non_metric { 2 * (d + (asym % 3) + p as i64) } else { 2 * (d + 1 + rho_j - rho_i + p as i64) };
                 }
             }
             let error_codes = if spec.features & F_UNREACHABLE != 0 && !spec.unreachable.is_empty() {
